@@ -3,23 +3,30 @@
 
     Model: IndModel.Estimator – one transcription of Estimator::{new,record,reset,steps_per_second},
     ProgressState::{per_sec,eta,duration,elapsed}, the position limiter and the ProgressBar entry
-    points, generic in the arithmetic; [Rar] = exact reals with W t = (1/10)^(t/15).
-    Vocabulary (IndProofs.EstimatorProofs / EstimatorBarProofs):
-      secs d            d nanoseconds in seconds
+    points, generic in the arithmetic; [Rar] = exact reals with W t = (1/10)^(t/15); [FL.arp p] =
+    binary64 (Flocq) with [powf] supplied as the function p.
+    Vocabulary (all of it defined in IndModel.Estimator, last part of the file):
+      W, secs d         the weight function; d nanoseconds in seconds
       ev, est_run       calls that reach the estimator: ERec pos t = Estimator::record,
                         ERst t pos = BarState::reset's estimator part (restart at position pos)
       hist_ok           monotonic clock (no call carries an instant before the previous one)
       segs_ok P         every segment the estimator ACCEPTS (steps and time both advanced) has a
                         rate satisfying P
+      progress_seen e   a sample was accepted after the last (re)start (start_time < prev_time)
+      steady_discount   1 - ((1 - w) / (1 - A w))^2, the stall discount of a steady stream
+      stall_rate e x    the rate reported x seconds (real) after the last accepted sample
       run_state ops t0  bar and clock after the history [ops] of public ProgressBar calls / clock
                         advances on a bar created at t0; no_wrap = the u64 ns clock does not wrap
       bar_evs           the estimator calls this history makes (position limiter included)
+      bar_points        the user-visible (position, instant) pairs of the calls of a history
+    Naming: [_refuted] = the clause as written is false on the faithful model (witness);
+    [_partial] = the statement covers less than the property's clause (docs/C09.md says what).
     The allowed axioms are the four of Coq's classical real numbers. *)
 From IndModel Require Import Base Estimator.
 From IndGen Require Import Constants.
-From IndProofs Require Import EstimatorProofs EstimatorBarProofs.
+From IndProofs Require Import EstimatorProofs EstimatorBarProofs EstimatorFloatProofs.
 From Coq Require Import Reals ZArith NArith List.
-From Flocq Require Import Core.Raux.
+From Flocq Require Import Core.Zaux Core.Raux IEEE754.BinarySingleNaN.
 Import ListNotations.
 Open Scope R_scope.
 
@@ -35,7 +42,12 @@ Theorem C09_denominator_pos : forall t : N, (0 < t)%N -> 0 < 1 - W (secs t).
 Proof. exact denominator_pos. Qed.
 Print Assumptions C09_denominator_pos.
 
-(** ** 1. Finite and non-negative *)
+(** ** 1. Finite and non-negative
+    The property's domain is "strictly after the bar's creation or last reset".  The theorems hold
+    on [start_time < now], i.e. outside the class
+       Known_restart_instant = { now = instant of the estimator's last restart },
+    which besides creation / reset* contains the instant of a RECORDED BACKWARDS SEEK: there the
+    clause is refuted ([C09_bar_rewind_instant_refuted], [C09_f64_rewind_instant_nan_refuted]). *)
 (** estimator level: every history of record / restart calls under a monotonic clock, every query
     instant not before the last call and strictly after the last restart *)
 Theorem C09_finite_nonneg : forall evs t0 now,
@@ -62,6 +74,29 @@ Theorem C09_bar_finite_nonneg : forall len t0 ops, no_wrap ops t0 ->
 Proof. exact bar_finite_nonneg. Qed.
 Print Assumptions C09_bar_finite_nonneg.
 
+(** REFUTED at the instant of a recorded backwards seek, which is strictly after creation and
+    has no reset before it: the normaliser 1 - W(0) is zero (division by zero).  History of
+    public calls: create at 0; update(set_pos 10) at 1 s; update(set_pos 5) at 2 s; query at 2 s *)
+Theorem C09_bar_rewind_instant_refuted :
+  exists len t0 ops,
+    no_wrap ops t0 /\ forallb (fun o => negb (is_reset_op o)) ops = true /\
+    let b := fst (run_state Rar ops t0 (bar_new Rar len t0)) in
+    let now := snd (run_state Rar ops t0 (bar_new Rar len t0)) in
+    b_done b = false /\ (t0 < now)%N /\ (b_started b < now)%N /\
+    1 - W (secs (now - start_time (b_est b))) = 0.
+Proof. exact bar_rewind_instant_refuted. Qed.
+Print Assumptions C09_bar_rewind_instant_refuted.
+
+(** the same history on the binary64 (Flocq) instance, with the values 0.1f64.powf returns for the
+    two exponents that occur: per_sec() is NaN (eta 0, duration = elapsed = 2 s) *)
+Theorem C09_f64_rewind_instant_nan_refuted :
+  exists tbl len t0 ops,
+    table_ok tbl = true /\ forallb (fun o => negb (is_reset_op o)) ops = true /\
+    run_obs (FL.ar tbl) FL.to_bits len t0 ops =
+      [(NAN_BITS, Some 0, Some 2000000000, 2000000000)%N].
+Proof. exact fl_rewind_instant_nan. Qed.
+Print Assumptions C09_f64_rewind_instant_nan_refuted.
+
 (** the observations a run records are exactly queries after prefixes of the history, so the
     bar-level theorems (stated for the query after an arbitrary history) cover every observation;
     holds for every arithmetic, also the binary64 ones used by the correspondence *)
@@ -82,34 +117,106 @@ Theorem C09_bar_history_events : forall len t0 ops, no_wrap ops t0 ->
 Proof. exact bar_after. Qed.
 Print Assumptions C09_bar_history_events.
 
-(** ** 2. Steady progress: the reported rate is exact at every sample instant, for any cadence *)
-Theorem C09_steady_exact : forall r evs t0,
+(** ** 2. Steady progress
+    "The reported rate equals the true rate" read at EVERY query instant after the last update is
+    refuted: between samples the code discounts the time since the last sample (the same
+    mechanism that makes the rate decay while progress stalls).  What holds at every query
+    instant is the explicit formula r * steady_discount A w with A = W(last sample - restart),
+    w = W(now - last sample); the discount is in [0,1] and equals 1 exactly at the instant of the
+    last accepted sample. *)
+Theorem C09_steady_every_instant : forall r evs t0 now,
+  let e := est_run evs (est_new Rar t0) in
+  hist_ok evs (est_new Rar t0) ->
+  segs_ok (fun x => x = r) evs (est_new Rar t0) ->
+  (prev_time e <= now)%N -> (start_time e < now)%N ->
+  let A := W (secs (prev_time e - start_time e)) in
+  let w := W (secs (now - prev_time e)) in
+  est_sps Rar e now = r * steady_discount A w /\
+  0 <= steady_discount A w <= 1 /\
+  (steady_discount A w = 1 <-> now = prev_time e).
+Proof. exact steady_every_instant. Qed.
+Print Assumptions C09_steady_every_instant.
+
+(** bar level, hypothesis on the estimator calls the history makes *)
+Theorem C09_bar_steady_every_instant : forall r len t0 ops now', no_wrap ops t0 ->
+  segs_ok (fun x => x = r) (bar_evs ops t0 (bar_new Rar len t0)) (est_new Rar t0) ->
+  let b := fst (run_state Rar ops t0 (bar_new Rar len t0)) in
+  let now := snd (run_state Rar ops t0 (bar_new Rar len t0)) in
+  b_done b = false -> (now <= now')%N -> (start_time (b_est b) < now')%N ->
+  let A := W (secs (prev_time (b_est b) - start_time (b_est b))) in
+  let w := W (secs (now' - prev_time (b_est b))) in
+  bar_per_sec Rar b now' = r * steady_discount A w /\
+  0 <= steady_discount A w <= 1 /\
+  (steady_discount A w = 1 <-> now' = prev_time (b_est b)).
+Proof. exact bar_steady_every_instant. Qed.
+Print Assumptions C09_bar_steady_every_instant.
+
+(** bar level, hypothesis on what the USER sees: the position right after every call that can
+    reach the estimator (set_position, inc, dec, update, tick, set_length, unset_length, reset_eta, reset_elapsed, reset),
+    paired with the instant of the call, lies on the line pos = r * t + c through (0, creation);
+    no matter how often or how irregularly the calls arrive and which of them the position limiter
+    lets through *)
+Theorem C09_bar_steady_line : forall r c len t0 ops now', no_wrap ops t0 ->
+  on_line r c 0 t0 ->
+  Forall (pt_on_line r c) (bar_points ops t0 (bar_new Rar len t0)) ->
+  let b := fst (run_state Rar ops t0 (bar_new Rar len t0)) in
+  let now := snd (run_state Rar ops t0 (bar_new Rar len t0)) in
+  b_done b = false -> (now <= now')%N -> (start_time (b_est b) < now')%N ->
+  let A := W (secs (prev_time (b_est b) - start_time (b_est b))) in
+  let w := W (secs (now' - prev_time (b_est b))) in
+  bar_per_sec Rar b now' = r * steady_discount A w /\
+  0 <= steady_discount A w <= 1 /\
+  (steady_discount A w = 1 <-> now' = prev_time (b_est b)).
+Proof. exact bar_steady_line. Qed.
+Print Assumptions C09_bar_steady_line.
+
+(** the literal reading is REFUTED: 15 steps in 15 s (rate 1), queried 15 s later: 21/121 < 1 *)
+Theorem C09_steady_between_samples_refuted :
+  exists r evs t0 now,
+    let e := est_run evs (est_new Rar t0) in
+    hist_ok evs (est_new Rar t0) /\ segs_ok (fun x => x = r) evs (est_new Rar t0) /\
+    (prev_time e <= now)%N /\ (start_time e < now)%N /\ est_sps Rar e now < r.
+Proof. exact steady_between_samples_refuted. Qed.
+Print Assumptions C09_steady_between_samples_refuted.
+
+Theorem C09_bar_steady_between_samples_refuted :
+  exists r c len t0 ops,
+    no_wrap ops t0 /\ on_line r c 0 t0 /\
+    Forall (pt_on_line r c) (bar_points ops t0 (bar_new Rar len t0)) /\
+    let b := fst (run_state Rar ops t0 (bar_new Rar len t0)) in
+    let now := snd (run_state Rar ops t0 (bar_new Rar len t0)) in
+    b_done b = false /\ (start_time (b_est b) < now)%N /\ bar_per_sec Rar b now < r.
+Proof. exact bar_steady_between_samples_refuted. Qed.
+Print Assumptions C09_bar_steady_between_samples_refuted.
+
+(** exactness AT THE INSTANT OF THE LAST ACCEPTED SAMPLE only (corollaries of the above) *)
+Theorem C09_steady_exact_partial : forall r evs t0,
   let e := est_run evs (est_new Rar t0) in
   hist_ok evs (est_new Rar t0) ->
   segs_ok (fun x => x = r) evs (est_new Rar t0) ->
   (start_time e < prev_time e)%N ->
   est_sps Rar e (prev_time e) = r.
 Proof. exact steady_exact. Qed.
-Print Assumptions C09_steady_exact.
+Print Assumptions C09_steady_exact_partial.
 
 (** the same with the hypothesis on the samples: all reported (position, instant) pairs – restarts
     included – lie on one line pos = r * t + c *)
-Theorem C09_steady_line : forall r c evs t0,
+Theorem C09_steady_line_partial : forall r c evs t0,
   let e := est_run evs (est_new Rar t0) in
   on_line r c 0 t0 -> Forall (ev_on_line r c) evs -> hist_ok evs (est_new Rar t0) ->
   (start_time e < prev_time e)%N ->
   est_sps Rar e (prev_time e) = r.
 Proof. exact steady_line. Qed.
-Print Assumptions C09_steady_line.
+Print Assumptions C09_steady_line_partial.
 
-Theorem C09_bar_steady : forall r len t0 ops, no_wrap ops t0 ->
+Theorem C09_bar_steady_partial : forall r len t0 ops, no_wrap ops t0 ->
   segs_ok (fun x => x = r) (bar_evs ops t0 (bar_new Rar len t0)) (est_new Rar t0) ->
   let b := fst (run_state Rar ops t0 (bar_new Rar len t0)) in
   let now := snd (run_state Rar ops t0 (bar_new Rar len t0)) in
   b_done b = false -> (start_time (b_est b) < prev_time (b_est b))%N -> now = prev_time (b_est b) ->
   bar_per_sec Rar b now = r.
 Proof. exact bar_steady. Qed.
-Print Assumptions C09_bar_steady.
+Print Assumptions C09_bar_steady_partial.
 
 (** ** 3. Bounds: between zero and the largest rate of an accepted segment, and below the
     envelope 2*M*W(stall) *)
@@ -176,6 +283,23 @@ Theorem C09_bar_decay_when_d_ge_s : forall len t0 ops now1 now2, no_wrap ops t0 
 Proof. exact bar_decay. Qed.
 Print Assumptions C09_bar_decay_when_d_ge_s.
 
+(** the class Known characterises the rise exactly: after progress has been seen, the rate
+    reported x seconds into a stall exceeds the rate at the last sample for SOME real x > 0
+    iff smoothed > double_smoothed there (x ranges over the reals: at nanosecond granularity a
+    margin smoothed - double_smoothed below the resolution produces no rise at any clock reading) *)
+Theorem C09_stall_rise_iff : forall evs t0,
+  let e := est_run evs (est_new Rar t0) in
+  hist_ok evs (est_new Rar t0) -> progress_seen e ->
+  ((exists x, 0 < x /\ stall_rate e 0 < stall_rate e x) <-> dsm e < sm e).
+Proof. exact stall_rise_iff. Qed.
+Print Assumptions C09_stall_rise_iff.
+
+(** [stall_rate] is what a query reports *)
+Theorem C09_stall_rate_is_query : forall (e : est R) now, wf e -> (prev_time e <= now)%N ->
+  est_sps Rar e now = stall_rate e (secs (now - prev_time e)).
+Proof. exact stall_rate_spec. Qed.
+Print Assumptions C09_stall_rate_is_query.
+
 (** the class Known is entered by an acceleration: steady progress at r1 followed by one faster
     segment leaves smoothed > double_smoothed *)
 Theorem C09_acceleration_enters_known_class : forall r1 (e : est R) new now,
@@ -220,14 +344,17 @@ Theorem C09_reset_forgets : forall (A : arith) o now (b1 b2 : bar (T A)) rest,
 Proof. exact bar_reset_forgets. Qed.
 Print Assumptions C09_reset_forgets.
 
-(** a recorded backwards seek *)
-Theorem C09_rewind_forgets : forall (A : arith) p now (b1 b2 : bar (T A)) rest,
+(** a RECORDED backwards seek (update(set_pos p) always reaches the estimator).  Partial: a
+    set_position/dec that the position limiter refuses and that is overtaken by forward progress
+    before the next accepted call never reaches the estimator and is not forgotten (docs/C09.md,
+    Interpretations) *)
+Theorem C09_rewind_forgets_partial : forall (A : arith) p now (b1 b2 : bar (T A)) rest,
   (p < prev_steps (b_est b1))%N -> (p < prev_steps (b_est b2))%N ->
   same_but_est A b1 b2 ->
   bar_step A (UpdPos p) now b1 = bar_step A (UpdPos p) now b2 /\
   bar_run A (UpdPos p :: rest) now b1 = bar_run A (UpdPos p :: rest) now b2.
 Proof. exact bar_rewind_forgets. Qed.
-Print Assumptions C09_rewind_forgets.
+Print Assumptions C09_rewind_forgets_partial.
 
 Theorem C09_rewind_is_restart : forall new now (e : est R), (new < prev_steps e)%N ->
   est_record Rar new now e = bar_reset_est Rar now new e.
@@ -260,6 +387,41 @@ Theorem C09_eta_zero_cases : forall (A : arith) (b : bar (T A)) now,
 Proof. exact eta_zero_cases. Qed.
 Print Assumptions C09_eta_zero_cases.
 
+(** the third case IS "no progress has been seen": over R the rate is zero exactly when no sample
+    was accepted since the last (re)start, and positive as soon as one was *)
+Theorem C09_rate_zero_iff_no_progress : forall evs t0 now,
+  let e := est_run evs (est_new Rar t0) in
+  hist_ok evs (est_new Rar t0) ->
+  (prev_time e <= now)%N -> (start_time e < now)%N ->
+  (progress_seen e -> 0 < est_sps Rar e now) /\
+  (~ progress_seen e -> est_sps Rar e now = 0) /\
+  (est_sps Rar e now = 0 <-> ~ progress_seen e).
+Proof. exact rate_zero_iff_no_progress. Qed.
+Print Assumptions C09_rate_zero_iff_no_progress.
+
+(** what [progress_seen] means call by call: true after an accepted sample, unchanged by an
+    ignored call, false after every restart (reset*, recorded backwards seek) *)
+Theorem C09_progress_seen_step : forall x (e : est R), wf e ->
+  (progress_seen (est_ev x e) <->
+   match x with
+   | ERec new now =>
+       ((prev_steps e < new)%N /\ (prev_time e < now)%N) \/
+       ((prev_steps e <= new)%N /\ (new = prev_steps e \/ (now <= prev_time e)%N) /\ progress_seen e)
+   | ERst _ _ => False
+   end).
+Proof. exact progress_seen_step. Qed.
+Print Assumptions C09_progress_seen_step.
+
+Theorem C09_bar_rate_zero_iff_no_progress : forall len t0 ops now', no_wrap ops t0 ->
+  let b := fst (run_state Rar ops t0 (bar_new Rar len t0)) in
+  let now := snd (run_state Rar ops t0 (bar_new Rar len t0)) in
+  b_done b = false -> (now <= now')%N -> (start_time (b_est b) < now')%N ->
+  (progress_seen (b_est b) -> 0 < bar_per_sec Rar b now') /\
+  (bar_per_sec Rar b now' = 0 <-> ~ progress_seen (b_est b)) /\
+  (~ progress_seen (b_est b) -> bar_eta Rar b now' = Some 0%N).
+Proof. exact bar_rate_zero_iff_no_progress. Qed.
+Print Assumptions C09_bar_rate_zero_iff_no_progress.
+
 (** otherwise eta = (len - pos, saturating) / rate seconds, truncated to whole nanoseconds;
     whole seconds saturate at u64::MAX; never a panic *)
 Theorem C09_eta_formula : forall (b : bar R) now l,
@@ -285,6 +447,36 @@ Theorem C09_duration_sum : forall (A : arith) (b : bar (T A)) now,
 Proof. exact duration_sum_gen. Qed.
 Print Assumptions C09_duration_sum.
 
+(** ** 7. binary64 artefact: the rate underflows to exactly 0 after a long stall
+    Over R the rate stays positive once progress has been seen (section 6).  In binary64 the
+    weight 0.1^(x/15) of a stall of x seconds leaves the normal range at x = 4615 s (below 2^-1022:
+    the products with the averages are computed with gradual underflow and may be flushed to 0)
+    and is below half the smallest subnormal from x = 4855 s on (every round-to-nearest powf
+    returns 0); then per_sec() = 0 and eta() = 0 although progress has been seen. *)
+Theorem C09_weight_underflow_thresholds : forall t : N,
+  ((STALL_ZERO_NS <= t)%N ->
+     0 < W (secs t) < bpow radix2 (-1075) /\ RN64 (W (secs t)) = 0) /\
+  ((t <= STALL_ZERO_NS - 1000000000)%N -> bpow radix2 (-1075) < W (secs t)) /\
+  ((STALL_SUBNORMAL_NS <= t)%N -> W (secs t) < bpow radix2 (-1022)) /\
+  ((t <= STALL_SUBNORMAL_NS - 1000000000)%N -> bpow radix2 (-1022) < W (secs t)).
+Proof. exact weight_underflow. Qed.
+Print Assumptions C09_weight_underflow_thresholds.
+
+(** binary64 (Flocq) instance, any powf: if powf returns +0 for both ages, then whatever the
+    estimator has learned (finite averages) the rate is a zero and eta() returns 0 *)
+Theorem C09_f64_rate_zero_when_weight_zero : forall p (b : bar FL.F) now,
+  is_finite (sm (b_est b)) = true -> is_finite (dsm (b_est b)) = true ->
+  est_weight (FL.arp p) (dur_secs (FL.arp p) (since now (prev_time (b_est b)))) = B754_zero false ->
+  est_weight (FL.arp p) (dur_secs (FL.arp p) (since now (start_time (b_est b)))) = B754_zero false ->
+  is_zero (FL.arp p) (est_sps (FL.arp p) (b_est b) now) = true /\
+  bar_eta (FL.arp p) b now = Some 0%N.
+Proof.
+  exact (fun p b now Hs Hd H1 H2 =>
+    conj (fl_rate_zero_when_weight_zero p (b_est b) now Hs Hd H1 H2)
+         (fl_eta_zero_when_weight_zero p b now Hs Hd H1 H2)).
+Qed.
+Print Assumptions C09_f64_rate_zero_when_weight_zero.
+
 (** ** Non-vacuity *)
 (** a monotonic history with an acceleration (1/s for 15 s, then 100/s for 15 s): hypotheses of
     C09_finite_nonneg / C09_bounded / C09_decay_limit with M = 100 *)
@@ -306,7 +498,7 @@ Proof.
 Qed.
 
 (** steady progress with an irregular cadence (gaps 1.5 s, 0.5 s, 4.5 s, 0.5 s on pos = 2 t):
-    hypotheses of C09_steady_line / C09_steady_exact *)
+    hypotheses of C09_steady_line_partial / C09_steady_exact_partial / C09_steady_every_instant *)
 Example C09_nonvacuous_steady :
   (on_line 2 0 0 0 /\ Forall (ev_on_line 2 0) line_evs) /\
   hist_ok line_evs (est_new Rar 0) /\
@@ -314,7 +506,8 @@ Example C09_nonvacuous_steady :
   start_time (est_run line_evs (est_new Rar 0)) = 0%N.
 Proof. exact (conj line_evs_on_line line_evs_run). Qed.
 
-(** hypotheses of C09_bar_steady: one public update 15 s after creation, r = 1 *)
+(** hypotheses of C09_bar_steady_partial / C09_bar_steady_every_instant: one public update 15 s
+    after creation, r = 1 *)
 Example C09_nonvacuous_bar_steady : forall len,
   no_wrap steady_ops 0 /\
   segs_ok (fun x => x = 1) (bar_evs steady_ops 0 (bar_new Rar len 0)) (est_new Rar 0) /\
